@@ -306,3 +306,197 @@ int run_root_race(const Args& a) {
     if (lost_races < 5) { rep.inconclusive("fewer than 5 rounds in which a thread lost the race for the root"); }
     return rep.finish();
 }
+
+// C08: "collapse of a two-child interior node" racing "split of its parent".
+// The tree is grown by ascending inserts until the root interior R and the
+// whole rightmost path below it are full (the next insert at the right end
+// splits leaf, interior and R); an interior child X of R (index >= 8, or < 8)
+// is then thinned to two leaves, one of them with a single key. Thread A
+// removes that key (X collapses, its other leaf takes X's place in R), thread B
+// does the insert that splits R. Stalls are injected right after lock releases
+// (LOCK_REL), so that whatever a writer still stores after it released a lock
+// happens after the other writer's whole operation.
+int run_parent_race(const Args& a) {
+    uint64_t seed = a.num("seed", 1);
+    uint64_t rounds = a.num("rounds", 400);
+    Report rep(a.str("prop", "C08"), "conc_parent_race", seed);
+    rep.set_rule("per round: ascending inserts (optionally below an 8-byte prefix: then R is a layer root and its parent is a border) until the root interior R has 16 children and the rightmost interior and leaf below it are full; one interior child X of R "
+                 "(random index, not the last) is thinned to two leaves of which one keeps a single key; then A removes that key (X collapses, the sibling leaf is promoted into R) while B inserts at the right end (leaf, interior and R split) and C "
+                 "reads; sleeps of up to 300 us are injected after every lock release so that the stores a writer performs after releasing a lock are overtaken by the other writer's complete operation. Afterwards (quiescent): walker "
+                 "(parent/child pointers, separators, leaf chain), every key reachable by get, then the promoted leaf is split and the check repeated. distinct_nontrivial = rounds by (index class of X, prefix, who took R first, which leaf of X survived)");
+    yk::init();
+    Rng r(seed);
+    std::string storage = "pr";
+    std::atomic<uint64_t> next_id{1};
+    Session main_ses;
+    uint64_t shaped = 0;
+    for (uint64_t rd = 0; rd < rounds && rep.violations() < 6; ++rd) {
+        yk::create_storage(storage);
+        yk::tree_instance* ti = nullptr;
+        yk::find_storage(storage, &ti);
+        std::string prefix = r.chance(1, 3) ? "PARENT01" : "";
+        main_ses.reenter();
+        std::vector<std::string> keys;
+        auto layer_root = [&]() -> yk::base_node* {
+            yk::base_node* root = ti->load_root_ptr();
+            if (prefix.empty() || root == nullptr) { return root; }
+            // the single link of the top border leads to the layer
+            auto* b = dynamic_cast<yk::border_node*>(root);
+            if (b == nullptr || b->get_permutation_cnk() == 0) { return nullptr; }
+            return b->lv_[b->permutation_.get_index_of_rank(0)].get_next_layer();
+        };
+        auto full_right_path = [&]() {
+            auto* R = dynamic_cast<yk::interior_node*>(layer_root());
+            if (R == nullptr || R->get_n_keys() != 15) { return false; }
+            auto* Y = dynamic_cast<yk::interior_node*>(R->get_child_at(15));
+            if (Y == nullptr || Y->get_n_keys() != 15) { return false; }
+            auto* L = dynamic_cast<yk::border_node*>(Y->get_child_at(15));
+            return L != nullptr && L->get_permutation_cnk() == 15;
+        };
+        uint64_t n = 0;
+        for (; n < 4000 && !full_right_path(); ++n) {
+            char b[16];
+            snprintf(b, sizeof b, "%06lu", static_cast<unsigned long>(n * 2));
+            keys.push_back(prefix + b);
+            yput(main_ses.tok, storage, keys.back(), make_value(next_id.fetch_add(1), keys.back(), 24));
+            g_progress.fetch_add(1, std::memory_order_relaxed);
+        }
+        if (!full_right_path()) {
+            rep.count("rounds_shape_not_reached");
+            main_ses.leave();
+            yk::delete_storage(storage);
+            continue;
+        }
+        auto* R = dynamic_cast<yk::interior_node*>(layer_root());
+        std::size_t xi = r.chance(2, 3) ? r.range(8, 14) : r.range(0, 7);
+        auto* X = dynamic_cast<yk::interior_node*>(R->get_child_at(xi));
+        if (X == nullptr || X->get_n_keys() < 1) {
+            main_ses.leave();
+            yk::delete_storage(storage);
+            continue;
+        }
+        // keys of X by leaf
+        std::vector<std::vector<std::string>> leaf_keys;
+        for (std::size_t i = 0; i <= X->get_n_keys(); ++i) {
+            auto* L = dynamic_cast<yk::border_node*>(X->get_child_at(i));
+            if (L == nullptr) { break; }
+            std::vector<std::string> ks;
+            for (std::size_t rk = 0; rk < L->get_permutation_cnk(); ++rk) {
+                std::size_t idx = L->permutation_.get_index_of_rank(rk);
+                uint64_t sl = L->key_slice_[idx];
+                std::size_t len = L->key_length_[idx];
+                ks.push_back(prefix + std::string(reinterpret_cast<char*>(&sl), std::min<std::size_t>(len, 8))); // NOLINT
+            }
+            leaf_keys.push_back(ks);
+        }
+        if (leaf_keys.size() < 2) {
+            main_ses.leave();
+            yk::delete_storage(storage);
+            continue;
+        }
+        // keep two adjacent leaves: `a` with one key, `b` untouched; which side survives varies
+        std::size_t keep = r.below(leaf_keys.size() - 1);
+        bool a_left = r.chance(1, 2);
+        std::size_t ia = a_left ? keep : keep + 1;
+        std::size_t ib = a_left ? keep + 1 : keep;
+        std::set<std::string> gone;
+        for (std::size_t i = 0; i < leaf_keys.size(); ++i) {
+            if (i == ia || i == ib) { continue; }
+            for (auto& k : leaf_keys[i]) {
+                yk::remove(main_ses.tok, storage, k);
+                gone.insert(k);
+            }
+        }
+        std::string last_of_a = leaf_keys[ia][r.below(leaf_keys[ia].size())];
+        for (auto& k : leaf_keys[ia]) {
+            if (k != last_of_a) {
+                yk::remove(main_ses.tok, storage, k);
+                gone.insert(k);
+            }
+        }
+        main_ses.leave();
+        ++shaped;
+        char nb[16];
+        snprintf(nb, sizeof nb, "%06lu", static_cast<unsigned long>(n * 2));
+        std::string right_key = prefix + nb; // beyond the greatest key: splits the whole right path
+        ctl::Profile prof;
+        prof.at(ctl::point::LOCK_REL) = ctl::Rule{r.chance(3, 4) ? 65535U : 20000U, 3, static_cast<uint32_t>(r.range(50, 300))};
+        ctl::g_profile.store(&prof);
+        uint32_t skew[3] = {static_cast<uint32_t>(r.below(400)), static_cast<uint32_t>(r.below(400)), 0};
+        status out[2] = {status::OK, status::OK};
+        uint64_t fin_stamp[2] = {0, 0};
+        std::string reader_fail;
+        std::atomic<int> writers_done{0};
+        const std::vector<std::string>& bkeys = leaf_keys[ib];
+        run_round(3, seed * 104729 + rd, [&](int tid) {
+            Session s;
+            s.reenter();
+            for (uint32_t k = skew[tid]; k > 0; --k) { _mm_pause(); }
+            if (tid == 0) {
+                out[0] = yk::remove(s.tok, storage, last_of_a);
+                fin_stamp[0] = stamp();
+                writers_done.fetch_add(1);
+            } else if (tid == 1) {
+                out[1] = yput(s.tok, storage, right_key, make_value(next_id.fetch_add(1), right_key, 24), true);
+                fin_stamp[1] = stamp();
+                writers_done.fetch_add(1);
+            } else {
+                for (int i = 0; (i < 4 || writers_done.load() < 2) && i < 3000; ++i) {
+                    const std::string& k = bkeys[static_cast<std::size_t>(i) % bkeys.size()];
+                    std::pair<char*, std::size_t> g;
+                    status gs = yget(storage, k, g);
+                    if (gs != status::OK) { reader_fail = "get(" + k + ") of a key that is never removed = " + st(gs); }
+                    g_progress.fetch_add(1, std::memory_order_relaxed);
+                }
+            }
+            s.leave();
+        });
+        ctl::g_profile.store(nullptr);
+        rep.eval();
+        if (out[0] != status::OK || out[1] != status::OK) { rep.violation("parentrace:writer-status", "remove / insert failed", JObj().str("remove", st(out[0])).str("put", st(out[1])).done()); }
+        if (!reader_fail.empty()) { rep.violation("parentrace:reader-failed", reader_fail, JObj().num("round", rd).done()); }
+        auto check = [&](const char* when) {
+            Walker w(alloc::mode() == alloc::Mode::FULL);
+            WalkResult wr = w.walk(ti);
+            for (auto& [ek, ed] : wr.errors) { rep.violation("walker:" + ek, std::string("structure ") + when, ed); }
+            main_ses.reenter();
+            std::size_t missing = 0;
+            std::string first_missing;
+            for (auto& k : keys) {
+                if (gone.count(k) != 0U || k == last_of_a) { continue; }
+                std::pair<char*, std::size_t> g;
+                if (yget(storage, k, g) != status::OK) {
+                    if (missing++ == 0) { first_missing = k; }
+                }
+            }
+            main_ses.leave();
+            if (missing != 0) {
+                rep.violation("parentrace:key-not-found-by-descent", std::string("keys whose last completed operation was a put are not found by get ") + when,
+                              JObj().num("missing", missing).str("first", first_missing).num("round", rd).num("x_index", xi).str("prefix", prefix).done());
+            }
+        };
+        check("after the collapse raced the parent's split");
+        // split the promoted leaf: a stale parent pointer sends the new half to the wrong interior node
+        main_ses.reenter();
+        {
+            const std::string& base = bkeys[bkeys.size() / 2];
+            for (int i = 0; i < 12; ++i) {
+                std::string k = base + static_cast<char>('a' + i);
+                if (k.size() - prefix.size() > 8) { break; }
+                yput(main_ses.tok, storage, k, make_value(next_id.fetch_add(1), k, 24));
+                keys.push_back(k);
+            }
+        }
+        main_ses.leave();
+        check("after the promoted leaf was split");
+        rep.count("rounds");
+        rep.distinct(mix64(xi >= 8 ? 1 : 0, mix64(prefix.size(), mix64(fin_stamp[0] < fin_stamp[1] ? 1 : 0, a_left ? 1 : 0))));
+        if (rd == 0) { rep.sample(JObj().num("keys_built", n).num("x_index", xi).num("leaves_of_x", leaf_keys.size()).str("prefix", prefix).done()); }
+        yk::delete_storage(storage);
+    }
+    rep.count("rounds_with_the_shape", shaped);
+    yk::fin();
+    drain_alloc_problems(rep);
+    if (shaped < 10) { rep.inconclusive("fewer than 10 rounds reached the required shape"); }
+    return rep.finish();
+}
